@@ -43,12 +43,19 @@ pub open spec fn keys_wf(s: WalletState) -> bool {
     &&& forall|k: (Identifier, u32)| #[trigger] s.tx_log.dom().contains(k) ==> log_key(s.tx_log[k]) == k
 }
 
-// grin_keychain: the identifier of child `n` of account path `parent`
-pub uninterp spec fn spec_child_id(parent: Identifier, n: u32) -> Identifier;
-// injective in n for a fixed parent (BIP32 path = parent path ++ [n]) — assumption A-path
-#[verifier::external_body]
-pub proof fn axiom_child_id_injective(p: Identifier, a: u32, b: u32)
-    ensures spec_child_id(p, a) == spec_child_id(p, b) ==> a == b { }
+// spec_child_id(parent, n) (prelude/ext.rs) is injective in n for a fixed parent of depth < 4
+pub proof fn lemma_child_id_injective(p: Identifier, a: u32, b: u32)
+    requires spec_path_depth(p) < 4
+    ensures spec_child_id(p, a) == spec_child_id(p, b) ==> a == b
+{
+    axiom_path_len(p);
+    let d = spec_path_depth(p);
+    let sa = spec_path_seq(p).update(d as int, ChildNumber { n: a });
+    let sb = spec_path_seq(p).update(d as int, ChildNumber { n: b });
+    axiom_path_roundtrip((d + 1) as u8, sa);
+    axiom_path_roundtrip((d + 1) as u8, sb);
+    if spec_child_id(p, a) == spec_child_id(p, b) { assert(sa[d as int] == sb[d as int]); }
+}
 
 // L3: storage iterators, as a finite sequence
 pub struct VIter<T> { pub items: Vec<T> }
